@@ -98,6 +98,7 @@ type frame struct {
 	activeRange *rangeState
 	newRefs  []Term
 	nret     int
+	tupleProvs map[ssa.Value]*Loc
 }
 
 var _ = 0
@@ -636,6 +637,8 @@ func (e *enc) readIn(mem map[string]Term, l *Loc) Term {
 			t = fmt.Sprintf("(select (arr_%s %s) %s)", s.sort, t, s.idx)
 		case "arridx":
 			t = fmt.Sprintf("(select %s %s)", t, s.idx)
+		case "mapval":
+			t = fmt.Sprintf("(select (val_%s %s) %s)", s.sort, t, s.idx)
 		}
 	}
 	return t
@@ -667,6 +670,10 @@ func (e *enc) updated(cur Term, path []step, v Term) Term {
 	case "arridx":
 		inner := fmt.Sprintf("(select %s %s)", cur, s.idx)
 		return fmt.Sprintf("(store %s %s %s)", cur, s.idx, e.updated(inner, path[1:], v))
+	case "mapval":
+		// the map held as the value of an entry of an outer map: written back into that entry
+		inner := fmt.Sprintf("(select (val_%s %s) %s)", s.sort, cur, s.idx)
+		return fmt.Sprintf("(mk_%s (dom_%s %s) (store (val_%s %s) %s %s) (nil_%s %s))", s.sort, s.sort, cur, s.sort, cur, s.idx, e.updated(inner, path[1:], v), s.sort, cur)
 	}
 	panic("step")
 }
